@@ -1,5 +1,6 @@
 (* C17 runner (extracted model: Debugger_model = coq/Debugger/Proto.v).
 
+   commands: R run, V recv, K cont, A<r> add_breakpoint, D<r> delete_breakpoint, L add_all_rules_breakpoints.
    c17_runner gen <preemptions> <nrandom> <seed>
        stdin : "MODE\t<literal|fixed>" and "CFG\t<id>\t<entries>\t<E|X>\t<names>" lines (from `c17 entries`)
        stdout: those lines again, then one case per line  "<cfg>\t<cap>\t<bps>\t<cmds>\t<sched>":
@@ -18,7 +19,7 @@ open Runner_common
 let rec nat_of_int n : M.nat = if n <= 0 then M.O else M.S (nat_of_int (n - 1))
 let rec int_of_n : M.nat -> int = function M.O -> 0 | M.S n -> 1 + int_of_n n
 
-type cfg = { id : string; entries : ((M.nat * M.nat) * bool) list; outc : M.outcome }
+type cfg = { id : string; entries : ((M.nat * M.nat) * bool) list; outc : M.outcome; grules : int list (* name indices of the grammar's own rules *) }
 
 let parse_cfg f =
   match f with
@@ -27,7 +28,9 @@ let parse_cfg f =
         match String.split_on_char ':' s with
         | [r; p; b] -> Some ((nat_of_int (int_of_string r), nat_of_int (int_of_string p)), b = "1")
         | _ -> None) (String.split_on_char ',' es) in
-    { id; entries; outc = (if o = "E" then M.OEof else M.OErr M.O) }
+    let grules = (match f with _ :: _ :: _ :: _ :: _ :: g :: _ ->
+        List.filter_map (fun x -> if x = "" then None else Some (int_of_string x)) (String.split_on_char ',' g) | _ -> []) in
+    { id; entries; outc = (if o = "E" then M.OEof else M.OErr M.O); grules }
   | _ -> failwith "bad CFG line"
 
 let ints s = List.filter_map (fun x -> if x = "" then None else Some (int_of_string x)) (String.split_on_char ',' s)
@@ -38,7 +41,9 @@ let cmds_of (c : cfg) (s : string) : M.cmd list =
         let n () = nat_of_int (int_of_string (String.sub x 1 (String.length x - 1))) in
         Some (match x.[0] with
             | 'R' -> M.CRun (c.entries, c.outc) | 'K' -> M.CCont | 'V' -> M.CRecv
-            | 'A' -> M.CAdd (n ()) | 'D' -> M.CDel (n ()) | _ -> failwith "bad cmd"))
+            | 'A' -> M.CAdd [n ()] | 'D' -> M.CDel (n ())
+            | 'L' -> M.CAdd (List.map nat_of_int c.grules)   (* add_all_rules_breakpoints: one guard, the grammar's rules inserted *)
+            | _ -> failwith "bad cmd"))
     (String.split_on_char ',' s)
 
 let config fixed cap : M.config = if fixed then M.repaired (nat_of_int cap) else M.literal (nat_of_int cap)
@@ -135,7 +140,11 @@ let random_case fixed (c : cfg) nrules =
   let cmds = "R" :: List.init len (fun _ ->
       match below 12 with
       | 0 | 1 -> "R" | 2 | 3 | 4 | 5 -> "K" | 6 | 7 | 8 | 9 -> "V"
-      | 10 -> "A" ^ string_of_int (below nrules) | _ -> "D" ^ string_of_int (below nrules)) in
+      | 10 -> if below 4 = 0 then "L" else "A" ^ string_of_int (below nrules) | _ -> "D" ^ string_of_int (below nrules)) in
+  (* sometimes the breakpoints are edited before the first run (the set is then constant during the runs: full event oracle) *)
+  let cmds = (match below 4 with
+      | 0 -> (if below 2 = 0 then ["A" ^ string_of_int (below nrules)] else []) @ ["L"] @ (if below 2 = 0 then ["D" ^ string_of_int (below nrules)] else [])
+      | _ -> []) @ cmds in
   let cmds = String.concat "," cmds in
   let cf = config fixed cap in
   let b = Buffer.create 128 in
@@ -165,12 +174,15 @@ let histories (c : cfg) : (int list * string) list =
       ([], "R,K,V,K");                   (* no breakpoints *)
       ([2], "R,V,D2,K,V");               (* delete racing with the lookups *)
       ([], "R,A2,V,K,V");                (* add racing with the lookups *)
-      ([2], "R,V,A1,D2,K,V,D1,K,V") ]    (* edits while stopped at a breakpoint *)
+      ([2], "R,V,A1,D2,K,V,D1,K,V");     (* edits while stopped at a breakpoint *)
+      ([1], "L,D0,R,V,K,V,K,V") ]        (* add-all before the run: digit stays, alpha removed again *)
   else if c.id = "builtin" then  (* ANY0 ASCII_DIGIT1 EOI2 NEWLINE3 SOI4 line5 other6 word7 *)
     [ ([2;7], "R,V,K,V,K,V,K,V");        (* word and EOI: word@0 word@2 EOI@4 Eof *)
       ([0;3;4], "R,V,K,V,K,V,K,V");      (* built-ins alone: SOI@0 ANY@2 NEWLINE@3 Eof *)
       ([1], "R,V,K,V,K,R,V");            (* ASCII_DIGIT (three visits), then a re-run *)
-      ([2], "R,V,A0,K,V") ]              (* EOI, ANY added while running *)
+      ([2], "R,V,A0,K,V");               (* EOI, ANY added while running *)
+      ([1], "L,R,V,K,V,K,V,K,V,K,V");    (* ASCII_DIGIT set before add-all: the built-in breakpoint must survive it *)
+      ([], "A0,L,D5,R,V,K,V,K,V,K,V") ]  (* ANY, then add-all, line removed *)
   else
     [ ([0;1;2;3;4], "R,V,K,R,V");
       ([0;1], "R,V,K,V,K,V,K");
@@ -186,7 +198,20 @@ let spec_oracle (c : cfg) (bps : int list) (cmds : string) (impl : string) (mode
   let obs = match String.split_on_char '|' impl with
     | _ :: o :: _ -> List.filter (fun x -> x <> "") (String.split_on_char ',' o) | _ -> [] in
   let cl = List.filter (fun x -> x <> "") (String.split_on_char ',' cmds) in
-  let static = not (List.exists (fun x -> x.[0] = 'A' || x.[0] = 'D') cl) in
+  (* edits before the first run change the set the runs start with; it is constant from then on unless edited again *)
+  let is_edit x = x.[0] = 'A' || x.[0] = 'D' || x.[0] = 'L' in
+  let rec lead b = function
+    | x :: rest when x.[0] <> 'R' ->
+      let k () = int_of_string (String.sub x 1 (String.length x - 1)) in
+      let b = (match x.[0] with
+          | 'A' -> if List.mem (k ()) b then b else k () :: b
+          | 'D' -> List.filter (fun y -> y <> k ()) b
+          | 'L' -> List.fold_left (fun b r -> if List.mem r b then b else r :: b) b c.grules
+          | _ -> b) in
+      lead b rest
+    | rest -> (b, rest) in
+  let bps, after = lead bps cl in
+  let static = not (List.exists is_edit after) in
   let expected = List.filter_map (fun ((r, p), _) ->
       if List.mem (int_of_n r) bps then Some (Printf.sprintf "B%d@%d" (int_of_n r) (int_of_n p)) else None) c.entries
     @ [ (match c.outc with M.OEof -> "EOF" | M.OErr _ -> "ERR") ] in
